@@ -164,8 +164,24 @@ func factsC12(r *Repo) []Fact {
 			}
 		}
 		out = append(out, boolFact("registerRejectsDuplicates", rej == 2, "serialization.go GenericRegister: `if _, ok := m[key]; ok {return error}` and the same for rm[t]"))
+		// `if key == "" { return fmt.Errorf(...) }` at the top level of the body
+		emptyRejected := false
+		for _, s := range fd.Body.List {
+			if is, ok := s.(*ast.IfStmt); ok && is.Init == nil {
+				c := exprString(is.Cond)
+				if c == "key==\"\"" || c == "len(key)==0" {
+					for _, b := range is.Body.List {
+						if rs, ok := b.(*ast.ReturnStmt); ok && len(rs.Results) == 1 && exprString(rs.Results[0]) != "nil" {
+							emptyRejected = true
+						}
+					}
+				}
+			}
+		}
+		out = append(out, boolFact("registerRejectsEmptyKey", emptyRejected, "serialization.go GenericRegister: `if key == \"\" {return error}`"))
 	} else {
 		out = append(out, unknownFact("registerRejectsDuplicates", "Bool", "false", "serialization.go", "func GenericRegister not found"))
+		out = append(out, unknownFact("registerRejectsEmptyKey", "Bool", "false", "serialization.go", "func GenericRegister not found"))
 	}
 
 	// ---- decode branches of internalUnmarshal ----
